@@ -2,9 +2,9 @@
 
 A *spec* is a plain dict (see ``base_spec``); ``build(spec)`` turns it into a
 real ``pandera.DataFrameSchema``.  Every non-default entry of a spec is a
-*feature*; ``features(spec)`` lists them, ``neutralise(spec, feature)`` resets
-one of them, ``tokens(spec)`` describes the remaining ones by class (used by
-the classifier of the check after the witness has been minimised).
+*feature* (``c12_oracle.removal_order`` lists them); ``neutralise(spec,
+feature)`` resets one of them, ``tokens(spec)`` describes the remaining ones
+by class (used by the classifier after the witness has been minimised).
 
 Two workload parts:
   * ``catalogue()``  deterministic sweep: one benign base schema + exactly one
@@ -341,40 +341,6 @@ def build(spec):
 def benign_name(n):
     """Column labels c0, c1, ... are the generator's neutral labels."""
     return isinstance(n, str) and re.fullmatch(r"c\d+", n) is not None
-
-
-def features(spec):
-    """Paths of all non-default entries, most specific first."""
-    out = []
-    for k, dflt in FRAME_DEFAULT.items():
-        if k == "checks":
-            for j, c in enumerate(spec["checks"]):
-                for o in c["opts"]:
-                    out.append(("checks", j, "opts", o))
-            for j in range(len(spec["checks"])):
-                out.append(("checks", j))
-        elif spec[k] != dflt:
-            out.append((k,))
-    for part, dflts in (("columns", COL_DEFAULT), ("index", IDX_DEFAULT)):
-        comps = spec[part] or []
-        for i, c in enumerate(comps):
-            for j, k in enumerate(c["checks"]):
-                for o in k["opts"]:
-                    out.append((part, i, "checks", j, "opts", o))
-            for j in range(len(c["checks"])):
-                out.append((part, i, "checks", j))
-            for k, dflt in dflts.items():
-                if k not in ("checks", "name") and c[k] != dflt:
-                    out.append((part, i, k))
-            if part == "columns" and not benign_name(c["name"]):
-                out.append((part, i, "name"))
-            if part == "index" and c["name"] is not None:
-                out.append((part, i, "name"))
-        for i in range(len(comps)):
-            out.append((part, i))
-    if spec["index"]:
-        out.append(("index",))
-    return out
 
 
 def neutralise(spec, path):
